@@ -7,10 +7,12 @@ from harness.c12lib import mk_system, mk_script
 from vt.glue import RecLib, GRID_NAMES
 
 
-def _abi(option, sc):
+def _abi(option, sc, keep=None):
     lib = RecLib()
     e = LibRDEngine(lib, option=option, requires_molecules=option != "euler")
     e.setup(sc)
+    if keep is not None:
+        keep.append(e)
     return [c for c in lib.log if c[0].startswith("engineexport_initialize")][0]
 
 
@@ -19,8 +21,19 @@ def setup_is_pure(f_units, f_space, o1, o2):
     opts = ["euler", "tauleap", "gillespie"]
     sc = mk_script(f_units, f_space, 0, 1, 7)
     before = _copy.deepcopy(rdscript_to_dict(sc))
-    _abi(opts[o1], sc)
+    kept = []
+    _abi(opts[o1], sc, kept)
     if rdscript_to_dict(sc) != before:
+        return False
+    # the script the engine keeps (and returns with the trajectory) is the caller's script, field for field - sampling policy,
+    # initial-state processing mode, seed, units ... - apart from the quantity unit a stochastic engine switches to molecules
+    stored = rdscript_to_dict(kept[0]._script)
+    for k_ in before:
+        if k_ in ("system", "units"):
+            continue
+        if stored.get(k_) != before[k_]:
+            return False
+    if stored["system"] != before["system"]:
         return False
     second = _abi(opts[o2], sc)
     fresh = _abi(opts[o2], mk_script(f_units, f_space, 0, 1, 7))
